@@ -737,7 +737,10 @@ Proof. induction l as [|x t IH]; cbn; [reflexivity|rewrite rec_eqb_refl, IH; ref
 Lemma pairs_eqb_refl l : pairs_eqb l l = true.
 Proof. induction l as [|[n b] t IH]; cbn; [reflexivity|]. rewrite !str_eqb_refl. exact IH. Qed.
 Lemma term_b r : term r -> terminated r = true.
-Proof. intros [p E]. unfold terminated. rewrite E, rev_app_distr. reflexivity. Qed.
+Proof.
+  intros [p E]. unfold terminated. rewrite E. clear E. induction p as [|x t IH]; [reflexivity|].
+  cbn [app ends_nl]. destruct (t ++ [10%N]) eqn:Et; [destruct t; discriminate|exact IH].
+Qed.
 
 Lemma isort_rot w : Inv2 w -> isort sh c (rot w) = rot w.
 Proof.
@@ -897,7 +900,7 @@ Proof. intros HL HN. rewrite w_std. exact (proj1 (ps_holds c t0 ops Hclean) HL H
 Theorem T_never_empty : Forall (fun f => fcont f <> []) (gone w ++ rot w).
 Proof. rewrite w_std. exact (proj2 (proj2 (ps_holds c t0 ops Hclean))). Qed.
 Theorem T_days_apart : daily c = true -> cN c <> 1 ->
-  Forall (fun r => rday r = day_of (act_mt w)) (act w) /\
+  Forall (fun r => rday r = day_of c (act_mt w)) (act w) /\
   Forall (fun f => Forall (fun r => rday r = fday f) (fcont f) /\ fymd f = civil (fday f)) (gone w ++ rot w).
 Proof.
   intros Hd HN. rewrite w_std. destruct (days_hold c t0 ops Hd HN Hclean) as [Da Dr _]. split; [exact Da|].
